@@ -50,6 +50,8 @@ structure RWCfg where
   recoveryKeepsSemicolon : Bool
   /-- `SkipInstance` steps over comments (a `;` or apostrophe inside a comment does not end the instance) -/
   skipInstanceSkipsComments : Bool
+  /-- `ReadInstance` reports an instance that is not followed by `;` (or ENDSEC) instead of swallowing the next character -/
+  missingSemicolonReported : Bool
   /-- `ReadInstance` hands the severity of a complex instance to `AppendEntityErrorMsg` (as it does for simple ones) -/
   complexReportsError : Bool
 deriving Repr, DecidableEq, Inhabited
@@ -812,11 +814,18 @@ def readInstance {F} (ops : FloatOps F) (lex : LexCfg) (cfg : RWCfg) (d : Dict) 
               | p :: ps => { p with vals := r.vals } :: ps
               | [] => []
             pure (r.sev, parts', r.s)
+        -- "check for semicolon or keyword 'ENDSEC'"
+        let semi (sev : Sev) (s : IStream) : Sev × IStream :=
+          let (c, s') := s.peekC
+          if cfg.missingSemicolonReported then
+            if c == 59 then (sev, (shiftInto c s').2)
+            else if c != 69 then (sev.greater .warning, s')
+            else (sev, s')
+          else (sev, if c != 69 then (shiftInto c s').2 else s')
         if c2 == 40 then
-          let (sev, parts', sR) ← rd s5
+          let (sev0, parts', sR) ← rd s5
           let s6 := readTokenSeparator sR
-          let (c3, s7) := s6.peekC
-          let s8 := if c3 != 69 then (shiftInto c3 s7).2 else s7
+          let (sev, s8) := semi sev0 s6
           let inst' := { inst with parts := parts', state := stateOf sev }
           if cfg.complexReportsError then
             pure ({ st with mgr := st.mgr.update inst', fileErr := appendEntityError st.fileErr sev, s := s8 }, some .null)
@@ -827,10 +836,9 @@ def readInstance {F} (ops : FloatOps F) (lex : LexCfg) (cfg : RWCfg) (d : Dict) 
           if c3 == 33 then throw (.unmodelled "user-defined entity")
           let (_, s8) := readStdKeyword s7
           let s9 := readTokenSeparator s8
-          let (sev, parts', sR) ← rd s9
+          let (sev0, parts', sR) ← rd s9
           let s10 := readTokenSeparator sR
-          let (c4, s11) := s10.peekC
-          let s12 := if c4 != 69 then (shiftInto c4 s11).2 else s11
+          let (sev, s12) := semi sev0 s10
           let inst' := { inst with parts := parts', state := stateOf sev }
           pure ({ st with mgr := st.mgr.update inst', fileErr := appendEntityError st.fileErr sev, s := s12 },
                 some .null)
